@@ -30,8 +30,8 @@ ASSUMPTIONS = [
     "values are renamed only to non-empty names (an unnamed sharded value cannot be serialized and the library's checker reports it by design)",
 ]
 BUDGET = {"quick": (16, 1500), "thorough": (16, 10000)}
-OPN = 16
-WEIGHTED = [0, 1, 1, 1, 2, 2, 2, 3, 4, 4, 4, 5, 6, 6, 7, 8, 9, 10, 11, 11, 12, 13, 14, 14, 15]
+OPN = 18
+WEIGHTED = [0, 1, 1, 1, 2, 2, 2, 3, 4, 4, 4, 5, 6, 6, 7, 8, 9, 10, 11, 11, 12, 13, 14, 14, 15, 16, 17]
 
 
 def strategy(tier, phase):
@@ -39,10 +39,10 @@ def strategy(tier, phase):
 
     # op kinds are drawn through a weighting table (annotation requests are what everything else reacts to)
     op = st.tuples(st.integers(0, len(WEIGHTED) - 1).map(lambda i: WEIGHTED[i]), st.integers(0, 30), st.integers(0, 30), st.integers(0, 30), st.integers(0, 30)).map(list)
-    return st.fixed_dictionaries({"irv": st.sampled_from([11, 12, 13]), "shadow": st.booleans(), "ops": st.sampled_from([6, 12, 25]).flatmap(lambda n: st.lists(op, min_size=n // 2, max_size=n))})
+    return st.fixed_dictionaries({"irv": st.sampled_from([11, 12, 13]), "shadow": st.booleans(), "deep": st.booleans(), "ops": st.sampled_from([6, 12, 25]).flatmap(lambda n: st.lists(op, min_size=n // 2, max_size=n))})
 
 
-def build(irv, shadow=False):
+def build(irv, shadow=False, deep=False):
     import onnx_ir as ir
 
     F = ir.TensorType(ir.DataType.FLOAT)
@@ -67,7 +67,19 @@ def build(irv, shadow=False):
     i0.outputs[0].name, i0.outputs[0].type, i0.outputs[0].shape = "ti0", F, ir.Shape([2, 3, 4])
     i1 = ir.Node("", "Add", [i0.outputs[0], a], num_outputs=1, name="then_add")
     i1.outputs[0].name, i1.outputs[0].type, i1.outputs[0].shape = "ti1", F, ir.Shape([2, 3, 4])
-    then_g = ir.Graph([], [i1.outputs[0]], nodes=[i0, i1], name="then_g")
+    then_nodes = [i0, i1]
+    if deep:
+        # control flow inside the branch: nodes two levels below the main graph use a value of the branch (ti0), a value of
+        # the main graph (a) and the branch's own condition source
+        d0 = ir.Node("", "Neg", [i0.outputs[0]], num_outputs=1, name="deep_neg")
+        d0.outputs[0].name, d0.outputs[0].type, d0.outputs[0].shape = "td0", F, ir.Shape([2, 3, 4])
+        d1 = ir.Node("", "Add", [a, i0.outputs[0]], num_outputs=1, name="deep_add")
+        d1.outputs[0].name, d1.outputs[0].type, d1.outputs[0].shape = "td1", F, ir.Shape([2, 3, 4])
+        i2 = ir.Node("", "If", [cond], [ir.AttrGraph("then_branch", ir.Graph([], [d0.outputs[0]], nodes=[d0], name="deep_then")),
+                                        ir.AttrGraph("else_branch", ir.Graph([], [d1.outputs[0]], nodes=[d1], name="deep_else"))], num_outputs=1, name="then_if")
+        i2.outputs[0].name = "ti2"
+        then_nodes = [i0, i2, i1]
+    then_g = ir.Graph([], [i1.outputs[0]], nodes=then_nodes, name="then_g")
     e0 = ir.Node("", "Neg", [n1.outputs[0]], num_outputs=1, name="else_neg")
     e0.outputs[0].name, e0.outputs[0].type = "te0", F
     else_g = ir.Graph([], [e0.outputs[0]], nodes=[e0], name="else_g")
@@ -97,8 +109,8 @@ def build(irv, shadow=False):
 
 
 class State:
-    def __init__(self, irv, shadow=False):
-        self.model = build(irv, shadow)
+    def __init__(self, irv, shadow=False, deep=False):
+        self.model = build(irv, shadow, deep)
         self.model.add_device_configuration("cfg0", num_devices=2, device_names=("d0", "d1"))
         self.model.add_device_configuration("cfg1", num_devices=3)
         self.fails = []
@@ -489,12 +501,37 @@ def run_op(st, op):
         nn = ir.Node("", "Add", [pool[b % len(pool)], pool[c % len(pool)]], num_outputs=1)
         m.graph.append(nn)
         return "append node"
+    if k == 16 and (d % 3 == 0 or not any(nn.op_identifier() in m.functions for nn in m.graph)) and m.functions:
+        # a call of the model-local function from the main graph
+        fid = next(iter(m.functions))
+        floats = [x for nn in m.graph for x in nn.outputs if x.shape is not None and len(x.shape) == 3] + [x for x in m.graph.inputs if x.name == "a"]
+        conds = [x for x in m.graph.inputs if x.name == "cond"]
+        if floats and conds and len(m.functions[fid].inputs) == 2:
+            st.n_names += 1
+            call = ir.Node(fid[0], fid[1], [floats[b % len(floats)], conds[0]], num_outputs=1, name=f"call{st.n_names}")
+            call.outputs[0].name = f"called{st.n_names}"
+            m.graph.append(call)
+            return "append call of fn"
+        return "noop"
+    if k == 17 and m.functions and any(nn.op_identifier() in m.functions for nn in m.graph.all_nodes()):
+        # function inlining clones the (possibly annotated) body nodes once per call site: a copy is inlined, so that an inliner
+        # rejecting an edited body leaves the history untouched
+        from onnx_ir.passes.common import InlinePass
+
+        try:
+            m2 = m.clone()
+            InlinePass()(m2)
+        except Exception:
+            return "noop"
+        st.model = m2
+        st.affected = st.affected or st.annotated
+        return "InlinePass"
     return "noop"
 
 
 def execute(case):
     try:
-        st = State(case["irv"], bool(case.get("shadow")))
+        st = State(case["irv"], bool(case.get("shadow")), bool(case.get("deep")))
         for i, op in enumerate(case["ops"]):
             if not (isinstance(op, list) and len(op) == 5):
                 return dict(failures=[], nontrivial=False, classes=["malformed"])
@@ -514,6 +551,10 @@ def execute(case):
         classes.append("annotation_then_edit")
     if st.shadowing:
         classes.append("shadowed_name")
+    if case.get("deep"):
+        classes.append("control_flow_nested_twice")
+    if any(isinstance(o, list) and o and o[0] == 17 for o in case["ops"]) and not st.model.functions:
+        classes.append("function_inlined")
     seen, out = set(), []
     for b_, m in st.fails:
         if b_ not in seen:
